@@ -1,6 +1,8 @@
 package main
 
 import (
+	"go/constant"
+	"strconv"
 	"bufio"
 	"path/filepath"
 	"fmt"
@@ -1287,6 +1289,63 @@ func (e *Engine) scanObligations(p string) []*Obligation {
 			o.SrcLine = "no call sites found"
 		}
 		out = append(out, o)
+	}
+	return out
+}
+
+// globalConstObligations: "globalconst NAME FUNC literal" - the package
+// variable is stored exactly once in the repository, by the package
+// initializer, with the value FUNC("literal").
+func (e *Engine) globalConstObligations(p string) []*Obligation {
+	var out []*Obligation
+	for _, g := range e.cs.GlobalConsts {
+		if !hasProp(g.Props, p) {
+			continue
+		}
+		stores := 0
+		good := false
+		detail := ""
+		for _, f := range e.allFuncs {
+			if f.Pkg == nil {
+				continue
+			}
+			for _, b := range f.Blocks {
+				for _, ins := range b.Instrs {
+					st, ok := ins.(*ssa.Store)
+					if !ok {
+						continue
+					}
+					gl, ok := st.Addr.(*ssa.Global)
+					if !ok || gl.Name() != g.Name || gl.Pkg.Pkg.Path() != g.Pkg {
+						continue
+					}
+					stores++
+					if f.Name() != "init" {
+						detail = "assigned in " + shortFuncName(f)
+						continue
+					}
+					if c, ok := st.Val.(*ssa.Call); ok {
+						if sc := c.Call.StaticCallee(); sc != nil && e.extName(sc) == g.Func && len(c.Call.Args) == 1 {
+							if k, ok := c.Call.Args[0].(*ssa.Const); ok && k.Value != nil && k.Value.Kind() == constant.String && constant.StringVal(k.Value) == g.Lit {
+								good = true
+								continue
+							}
+						}
+					}
+					detail = "initializer is not " + g.Func + "(" + strconv.Quote(g.Lit) + ")"
+				}
+			}
+		}
+		if stores != 1 && detail == "" {
+			detail = fmt.Sprintf("%d assignments found", stores)
+		}
+		ft := e.newFT(nil)
+		goal := "true"
+		if !(good && stores == 1) {
+			goal = "false"
+		}
+		out = append(out, &Obligation{Name: "scan/globalconst " + g.Name, Kind: "scan", Props: g.Props, Func: "scan", Pos: fmt.Sprintf("%s:%d", filepath.Base(g.File), g.Line),
+			Text: g.Name + " == " + g.Func + "(" + strconv.Quote(g.Lit) + ") and never reassigned", Goal: goal, Reach: "true", ft: ft, SrcLine: detail})
 	}
 	return out
 }
